@@ -1,0 +1,17 @@
+//go:build verif
+
+package verifhook
+
+import "sync/atomic"
+
+var handler atomic.Value // func(name string, args ...any)
+
+// SetHandler installs the function called at every Point (verification harness only).
+func SetHandler(f func(name string, args ...any)) { handler.Store(f) }
+
+// Point calls the installed handler, which may block the calling goroutine (scheduler gate).
+func Point(name string, args ...any) {
+	if h := handler.Load(); h != nil {
+		h.(func(string, ...any))(name, args...)
+	}
+}
